@@ -2,8 +2,9 @@
    ProofsA: scanner = language of the comment regular expression, line splitting, duplicate keys, load.
    ProofsDump: the printer's output is untouched by comment stripping; dump/load.
    ProofsB: typed parse — errors name an offending item, strictness, round trips.
-   ProofsC: the conversions lose nothing and alter nothing except int -> float. *)
-Require Export QV.C16.Model QV.C16.ProofsA QV.C16.ProofsDump QV.C16.ProofsB QV.C16.ProofsC.
+   ProofsC: the conversions lose nothing and alter nothing except int -> float.
+   ProofsD: the class check accepts exactly the grammar [cty]; checked classes parse inside it. *)
+Require Export QV.C16.Model QV.C16.ProofsA QV.C16.ProofsDump QV.C16.ProofsB QV.C16.ProofsC QV.C16.ProofsD.
 
 Lemma scan_is_regex : forall l n,
   scan l = Some n <-> exists p r, l = p ++ cH :: r /\ outside p /\ n = length p.
